@@ -102,6 +102,24 @@ def run(ctx):
               reactions=[(["A"], [], "massaction", {"k": "p0"})], initial_condition_dict={"A": 1})
     n = 600 if ctx.quick() else 20000
     jobs, meta = [], []
+    # the 'positive' flag with every family whose support reaches below zero, alone and inside vectors
+    for pr, x in ((["uniform", -5.0, 5.0], -1.0), (["uniform", -5.0, 5.0], -4.99), (["uniform", -2.0, -1.0], -1.5),
+                  (["gaussian", 0.2, 20.0], -1.0), (["gaussian", -3.0, 1.0], -3.0)):
+        for extra in ({}, {"p1": (["gamma", 3.0, 2.0], 1.0)}, {"p1": (["uniform", 0.0, 10.0], 4.0), "p2": (["beta", 2.0, 2.0], 0.5)}):
+            for first in (True, False):
+                items = [("p0", (pr + ["positive"], x))] + [(k, (v[0], v[1])) for k, v in extra.items()]
+                if not first:
+                    items = items[::-1]
+                priors = {k: v[0] for k, v in items}
+                vals = {k: v[1] for k, v in items}
+                case = {"priors": priors, "values": vals}
+                ctx.begin_case(case)
+                lp = float(DeterministicInference(list(priors), M, priors).check_prior(dict(vals)))
+                ctx.evaluated()
+                if math.isfinite(lp):
+                    ctx.violation("prior/support/positive-flag", "a negative value under the 'positive' flag gets the finite log-prior %r" % lp, case)
+                    return
+                ctx.count("positive_flag_rejected")
     for i in range(n):
         k = 1 if i % 3 else rng.randint(2, 4)
         names = ["p%d" % j for j in range(k)]
